@@ -2,6 +2,7 @@
 import ast
 from ..model import own_nodes, AnalysisError
 from ..paths import factmap, call_text, returns, must_call
+from ..defuse import defuse, closed_text, comp_view, sum_terms
 from . import shared
 
 
@@ -79,15 +80,11 @@ def run(P, R):
     R.require(starts, 'no call of command.start() found in commander.py')
     for u, c in starts:
         fm = factmap(u)
-        fs = {tuple(f) for f in fm.at(c)}
-        ok = u is pj and ('process.stopped()', True) in fs and ('command.identifier', True) in fs
+        fs = fm.closed(c)
+        ok = u is pj and ('command.process.stopped()', True) in fs and ('command.identifier', True) in fs
         R.check(r1, ok, 'command.start() only for a stopped process with a chosen identifier',
-                'start-guard|%s' % u.qual, u.loc(c), '%s calls command.start() under %s (needs process.stopped() and '
-                'command.identifier)' % (u.qual, sorted(fs)))
-    defs = {a.targets[0].id: ast.unparse(a.value) for a in own_nodes(pj.node) if isinstance(a, ast.Assign)
-            and isinstance(a.targets[0], ast.Name)}
-    R.check(r1, defs.get('process') == 'command.process', 'the stopped() test is on the process of the command',
-            'start-guard|alias', pj.loc(), 'process_job tests another process than command.process')
+                'start-guard|%s' % u.qual, u.loc(c), '%s calls command.start() under %s (needs '
+                'command.process.stopped() and command.identifier)' % (u.qual, sorted(fs)))
     PC = P.cls('ProcessCommand')
     for u in P.all_units():
         for n in own_nodes(u.node):
@@ -105,16 +102,11 @@ def run(P, R):
             continue
         arg = c.args[0] if c.args else None
         fm = factmap(u)
-        src = None
-        if isinstance(arg, ast.Name):
-            asg = [a for a in own_nodes(u.node) if isinstance(a, ast.Assign) and isinstance(a.targets[0], ast.Name)
-                   and a.targets[0].id == arg.id]
-            src = [call_text(a.value) if isinstance(a.value, ast.Call) else ast.unparse(a.value) for a in asg]
-        ok = isinstance(arg, ast.Name) and src == ['get_supvisors_instance'] and \
-            any(f[0] == arg.id and f[1] for f in fm.at(c))
+        src = closed_text(u, arg) if arg is not None else '?'
+        ok = src.startswith('get_supvisors_instance(') and (src, True) in fm.closed(c)
         R.check(r1, ok, '%s: update_identifier receives a tested placement result' % u.qual,
                 'placement-arg|%s' % u.qual, u.loc(c), '%s hands `%s` (from %s) to update_identifier without it being '
-                'the truthiness-tested result of get_supvisors_instance' % (u.qual, ast.unparse(arg) if arg else '?', src))
+                'the truthiness-tested result of get_supvisors_instance' % (u.qual, ast.unparse(arg) if arg else '?', src[:60]))
 
     # ---------------------------------------------------------------- R2
     r2 = R.rule('R2', 'provenance of the candidate list', 'the candidate list of every placement whose result is given '
@@ -161,9 +153,10 @@ def run(P, R):
         R.note(r2, 'no per-process filter helper (get_process_identifiers) in this tree')
         gp = P.unit('ApplicationStartJobs.process_job')
         rs = None
-    ok = rs is None or len(rs) == 1 and isinstance(rs[0], ast.ListComp) and ast.unparse(rs[0].generators[0].iter) == 'self.identifiers' \
-        and sorted(ast.unparse(i) for i in rs[0].generators[0].ifs) == \
-        ['identifier in process.info_map and (not process.disabled_on(identifier))']
+    cv = comp_view(gp, rs[0]) if rs and len(rs) == 1 else None
+    ok = rs is None or cv is not None and cv['kind'] == 'list' and cv['iters'] == ['self.identifiers'] and \
+        cv['elt'] == 'each(self.identifiers)' and cv['conds'] == {
+            ('each(self.identifiers) in process.info_map', True), ('process.disabled_on(each(self.identifiers))', False)}
     R.check(r2, ok, 'the per-process filter keeps the instances that know the program and have it enabled',
             'candidates|get_process_identifiers', gp.loc(), 'get_process_identifiers is not `[i for i in '
             'self.identifiers if i in process.info_map and not process.disabled_on(i)]`')
@@ -180,14 +173,14 @@ def run(P, R):
     calls = [c for c in own_nodes(g.node) if isinstance(c, ast.Call) and isinstance(c.func, ast.Attribute)
              and c.func.attr == 'get_supvisors_instance']
     ok = False
-    if len(calls) == 1 and calls[0].args and isinstance(calls[0].args[0], ast.Name):
-        cand = defs.get(calls[0].args[0].id)
-        if isinstance(cand, ast.ListComp):
-            ifs = [ast.unparse(i) for i in cand.generators[0].ifs]
-            run_name = [i.split(' in ')[1] for i in ifs if ' in ' in i]
-            ok = ast.unparse(cand.generators[0].iter) == g.node.args.args[2].arg and len(ifs) == 1 and run_name and \
-                ast.unparse(defs.get(run_name[0])) == 'supvisors.context.running_identifiers()' and \
-                ast.unparse(cand.elt) == cand.generators[0].target.id
+    if len(calls) == 1 and calls[0].args:
+        cand = calls[0].args[0]
+        if isinstance(cand, ast.Name):
+            cand = defs.get(cand.id)
+        cv = comp_view(g, cand)
+        src = g.node.args.args[2].arg
+        ok = cv is not None and cv['kind'] == 'list' and cv['iters'] == [src] and cv['elt'] == 'each(%s)' % src and \
+            cv['conds'] == {('each(%s) in supvisors.context.running_identifiers()' % src, True)}
     R.check(r3, ok, 'candidates are restricted to the instances seen RUNNING', 'running-filter|get_supvisors_instance',
             g.loc(), 'get_supvisors_instance does not hand the strategy exactly [i for i in identifiers if i in '
             'context.running_identifiers()]')
@@ -197,40 +190,37 @@ def run(P, R):
             'running_identifiers() is exactly the RUNNING instances', 'running-filter|definition', ri.loc(),
             'Context.running_identifiers does not return the instances in RUNNING state only')
     # load details: both the pending map and the current node loads reach the strategy
-    ok = len(calls) == 1 and len(calls[0].args) == 3 and isinstance(calls[0].args[2], ast.Tuple) and \
-        sorted(ast.unparse(x) for x in calls[0].args[2].elts) == ['load_request_map', 'node_load_map',
-                                                                  'node_load_request_map'] and \
-        ast.unparse(defs.get('node_load_map')) == 'supvisors.context.get_nodes_load()' and \
-        ast.unparse(defs.get('node_load_request_map')) == 'get_node_load_request_map(supvisors.mapper, load_request_map)' \
-        and ast.unparse(calls[0].args[2].elts[0]) == 'load_request_map'
+    det = None
+    if len(calls) == 1 and len(calls[0].args) == 3:
+        det = defuse(g).closed(calls[0].args[2])
+    lrm = g.node.args.args[4].arg if len(g.node.args.args) >= 5 else '?'
+    ok = isinstance(det, ast.Tuple) and len(det.elts) == 3 and ast.unparse(det.elts[0]) == lrm and \
+        sorted(ast.unparse(x) for x in det.elts[1:]) == sorted([
+            'supvisors.context.get_nodes_load()', 'get_node_load_request_map(supvisors.mapper, %s)' % lrm])
     R.check(r3, ok, 'current node loads and pending requests (per instance and per node) are handed to the strategy',
             'load-details|get_supvisors_instance', g.loc(), 'get_supvisors_instance does not pass (load_request_map, '
             'node requests, node loads) built from context.get_nodes_load() and the pending requests')
     lv = P.unit('AbstractStartingStrategy.is_loading_valid')
     rs = [v for v, f, n in returns(lv) if v is not None]
-    ldefs = {a.targets[0].id: ast.unparse(a.value) for a in own_nodes(lv.node) if isinstance(a, ast.Assign)
-             and isinstance(a.targets[0], ast.Name)}
-    ok = len(rs) == 1 and isinstance(rs[0], ast.Tuple) and ast.unparse(rs[0].elts[0]) in (
-        'node_loading + expected_load <= 100', 'expected_load + node_loading <= 100')
+    # closed forms (sa.defuse): independent of the locals the function uses for its intermediate values
+    val, node, inst = shared.loading_terms(P)
+    ok = isinstance(val, ast.Compare) and len(val.ops) == 1 and isinstance(val.ops[0], ast.LtE) and \
+        P.const_value(lv.mod, val.comparators[0]) == 100
+    terms = sum_terms(lv, val.left) if ok else []
+    ok = ok and sorted(terms) == sorted(node + ['expected_load'])
     R.check(r3, ok, 'validity is node_loading + expected_load <= 100', 'cap|is_loading_valid', lv.loc(),
             'is_loading_valid returns validity `%s`' % (ast.unparse(rs[0].elts[0]) if rs and isinstance(rs[0], ast.Tuple)
                                                         else '?'))
-    nl = ldefs.get('node_loading', '')
-    ok = nl in ('node_load_map.get(machine_id, 0) + node_load_request_map.get(machine_id, 0)',
-                'node_load_request_map.get(machine_id, 0) + node_load_map.get(machine_id, 0)') and \
-        ldefs.get('machine_id') == 'status.supvisors_id.local_view.machine_id' and \
-        ldefs.get('status') == 'self.supvisors.context.instances[identifier]'
-    R.check(r3, ok, 'node_loading = load of the node of the candidate + pending requests on that node',
-            'cap|node_loading', lv.loc(), 'is_loading_valid computes node_loading as `%s`' % nl)
-    un = [a for a in own_nodes(lv.node) if isinstance(a, ast.Assign) and isinstance(a.targets[0], ast.Tuple)
-          and ast.unparse(a.value) == 'load_details']
-    ok = len(un) == 1 and len(un[0].targets[0].elts) == 3 and ast.unparse(un[0].targets[0].elts[0]) == 'load_request_map'
-    R.check(r3, ok, 'the load details are unpacked as three maps, per-instance requests first', 'cap|unpack', lv.loc(),
-            'is_loading_valid does not unpack load_details as (load_request_map, <node map>, <node map>)')
+    mid = 'self.supvisors.context.instances[identifier].supvisors_id.local_view.machine_id'
+    want = sorted(['load_details[1].get(%s, 0)' % mid, 'load_details[2].get(%s, 0)' % mid])
+    R.check(r3, node == want, 'node_loading = load of the node of the candidate + pending requests on that node',
+            'cap|node_loading', lv.loc(), 'is_loading_valid computes node_loading as `%s`' % ' + '.join(node))
+    ok = inst == sorted(['self.supvisors.context.instances[identifier].get_load()', 'load_details[0].get(identifier, 0)'])
+    R.check(r3, ok, 'the load details are three maps, per-instance requests first', 'cap|unpack', lv.loc(),
+            'is_loading_valid does not use load_details as (per-instance requests, <node map>, <node map>): instance '
+            'loading is `%s`' % ' + '.join(inst))
     nr = P.unit('strategy:get_node_load_request_map')
-    aug = [a for a in own_nodes(nr.node) if isinstance(a, ast.AugAssign)]
-    ok = len(aug) == 1 and isinstance(aug[0].op, ast.Add) and ast.unparse(aug[0].target) == 'node_load_request_map[machine_id]' \
-        and ast.unparse(aug[0].value) == 'load'
+    ok = shared.node_requests_summed(nr)
     R.check(r3, ok, 'pending requests are summed per node', 'cap|node-requests', nr.loc(),
             'get_node_load_request_map does not accumulate (+=) the pending loads of the instances of a node')
     nlu = P.unit('Context.get_nodes_load')
@@ -266,14 +256,15 @@ def run(P, R):
         valid_sources += 1
     for nm in ('sort_valid_by_instance_load', 'sort_valid_by_node_load'):
         u = P.unit('AbstractStartingStrategy.' + nm)
-        comps = [c for c in own_nodes(u.node) if isinstance(c, ast.ListComp)]
-        ok = len(comps) == 1 and [ast.unparse(i) for i in comps[0].generators[0].ifs] == ['validity']
+        comps = [comp_view(u, c) for c in own_nodes(u.node) if isinstance(c, ast.ListComp)]
+        ok = len(comps) == 1 and comps[0]['iters'] == ['loading_validity_map.items()'] and \
+            comps[0]['conds'] == {('each(loading_validity_map.items())[1][0]', True)}
         R.check(r3, ok, '%s keeps valid entries only' % nm, 'cap|sorter|%s' % nm, u.loc(),
                 '%s does not filter on validity' % nm)
     lv_map = P.unit('AbstractStartingStrategy.get_loading_and_validity')
-    ok = any(isinstance(c, ast.DictComp) and call_text(c.value) == 'self.is_loading_valid' and
-             ast.unparse(c.generators[0].iter) == 'identifiers' for c in own_nodes(lv_map.node)
-             if isinstance(c, ast.DictComp) and isinstance(c.value, ast.Call))
+    ok = any(cv['kind'] == 'dict' and cv['iters'] == ['identifiers'] and not cv['conds'] and
+             cv['elt'][0] == 'each(identifiers)' and cv['elt'][1].startswith('self.is_loading_valid(each(identifiers), ')
+             for cv in (comp_view(lv_map, c) for c in own_nodes(lv_map.node) if isinstance(c, ast.DictComp)))
     R.check(r3, ok, 'validity of every candidate comes from is_loading_valid', 'cap|validity-source', lv_map.loc(),
             'get_loading_and_validity does not compute validity with is_loading_valid for each candidate')
 
@@ -284,17 +275,17 @@ def run(P, R):
                 4)
     u = P.unit('ProcessStatus.possible_identifiers')
     rs = [v for v, f, n in returns(u) if v is not None]
-    ok = len(rs) == 1 and isinstance(rs[0], ast.ListComp) and \
-        [ast.unparse(i) for i in rs[0].generators[0].ifs] == ['identifier in self.info_map and '
-                                                              '(not self.disabled_on(identifier))'] and \
-        ast.unparse(rs[0].generators[0].iter) == 'filtered_identifiers'
+    cv = comp_view(u, rs[0]) if len(rs) == 1 else None
+    ok = cv is not None and cv['kind'] == 'list' and cv['iters'] == ['filtered_identifiers'] and \
+        cv['elt'] == 'each(filtered_identifiers)' and cv['conds'] == {
+            ('each(filtered_identifiers) in self.info_map', True), ('self.disabled_on(each(filtered_identifiers))', False)}
     R.check(r4, ok, 'known + enabled filter on the rule-filtered list', 'filter|process', u.loc(),
             'ProcessStatus.possible_identifiers does not return [i for i in filtered_identifiers if i in info_map and '
             'not disabled_on(i)]')
-    asg = [(ast.unparse(a.value), {tuple(f) for f in factmap(u).at(a)}) for a in own_nodes(u.node)
+    asg = [(closed_text(u, a.value), factmap(u).closed(a)) for a in own_nodes(u.node)
            if isinstance(a, ast.Assign) and ast.unparse(a.targets[0]) == 'filtered_identifiers']
     ok = ('list(self.supvisors.mapper.instances.keys())', {('WILDCARD in self.rules.identifiers', True)}) in asg and \
-         ('self.supvisors.mapper.filter(rules_identifiers)', {('WILDCARD in self.rules.identifiers', False)}) in asg and \
+         ('self.supvisors.mapper.filter(self.rules.identifiers)', {('WILDCARD in self.rules.identifiers', False)}) in asg and \
         len(asg) == 2
     R.check(r4, ok, 'the identifiers rule is applied (wildcard or explicit list)', 'filter|process-rule', u.loc(),
             'ProcessStatus.possible_identifiers builds filtered_identifiers as %s' % sorted(a for a, f in asg))
@@ -329,7 +320,7 @@ def run(P, R):
     fc = [c for c in own_nodes(pj.node) if isinstance(c, ast.Call) and call_text(c) == 'self.fail_command']
     pf = [c for c in own_nodes(pj.node) if isinstance(c, ast.Call) and call_text(c) == 'self.process_failure']
     ok = len(fc) == 1 and len(pf) == 1 and all(
-        {('process.stopped()', True), ('command.identifier', False)} <= {tuple(f) for f in fm.at(c)} for c in fc + pf) \
+        {('command.process.stopped()', True), ('command.identifier', False)} <= fm.closed(c) for c in fc + pf) \
         and any(isinstance(a, ast.Constant) and a.value == 'No resource available' for a in fc[0].args)
     R.check(r5, ok, 'no resource: forced failure + starting failure strategy, no request', 'no-resource|process_job',
             pj.loc(), 'process_job does not call fail_command("No resource available") and process_failure exactly '
